@@ -178,7 +178,7 @@ func c09Segment() string {
 	return string(b)
 }
 
-//verif:entry tier=quick,thorough maporder=perm steps=3000000 cover=dispatched,vars,notfound,notallowed
+//verif:entry native tier=quick,thorough maporder=perm steps=3000000 cover=dispatched,vars,notfound,notallowed
 //verif:doc H1: 12 route tables (3 routes each: literal/variable siblings, shared prefixes, proper prefixes registered before and after the longer route, backtracking, several methods) x request of 0..3 (quick) / 0..4 (thorough) segments of 1..2 symbolic ASCII bytes (any byte but '/', never "." or "..") x method GET/POST/PUT; the root path is the 0-segment case; map iteration order is a decision.
 func Verif_C09_Dispatch() {
 	w := c09Build(c09Tables[rt.Choose("table", len(c09Tables))])
@@ -223,7 +223,7 @@ func c09Dirty(p string, kind int) string {
 	return p[1:] // missing leading slash (also the empty path for "/")
 }
 
-//verif:entry tier=quick,thorough maporder=perm steps=3000000 cover=dispatched,notfound,notallowed
+//verif:entry native tier=quick,thorough maporder=perm steps=3000000 cover=dispatched,notfound,notallowed
 //verif:doc H2: the same tables x 12 concrete witness paths x 8 dirty spellings (trailing slash, doubled slash, /./, /x/../, trailing /. and /x/.., missing leading slash) x 3 methods: the outcome equals the reference on path.Clean of the request path.
 func Verif_C09_Dirty() {
 	w := c09Build(c09Tables[rt.Choose("table", len(c09Tables))])
@@ -242,7 +242,7 @@ func Verif_C09_Dirty() {
 	c09Check(w, method, req, c09Segs(cleaned))
 }
 
-//verif:entry tier=quick,thorough cover=dup,badmethod,badpath,dirtydup
+//verif:entry native tier=quick,thorough cover=dup,badmethod,badpath,dirtydup
 //verif:doc Registration: the same (method, pattern) twice (also via a dirty spelling of the same pattern), an unsupported method, and a pattern not starting with '/' are rejected; everything else is accepted.
 func Verif_C09_Register() {
 	r := NewRouter().(*patRouter)
